@@ -105,6 +105,91 @@ def computeAll (hom : Bool) (eig : Mat (m + 2) α → EigSym (m + 2) α) (knn : 
     let p := pts.getD i (fun _ => zero)
     estimate hom eig ((knn i).map fun j => pts.getD j (fun _ => zero)) p
 
+/-! ## Objects that outlive a call: the estimator and the caller-owned kd-tree
+
+`compute(points, pointsKdTree, ...)` (:120, :154, :243) takes a kd-tree owned by the caller, and one
+`NormalAndCurvatureEstimation` object serves any number of calls.  What survives a call:
+
+* in the estimator (hpp:100-106): `numberOfNeighborPoints_` (fixed by the constructor), `neighborIndexes_` (`k` entries,
+  value-initialised to 0, :52), `neighborSquareDistances_` (written by the query, never read), `eigenSolver_`,
+  `eigenValues_`, `eigenVectors_` (zero, :55-56);
+* in the `KdTree` (KdTree.hpp:61-63): the nanoflann index built by the constructor (a function of the point set, C08) and
+  `singleNNResult_`, which only `findNearestNeighbor` (the single-neighbour query, not used here) touches;
+  `findNearestNeighbors` (KdTree.cpp:49-58) builds its result set on the stack with the `numberOfNeighbors` of THIS call,
+  so a query is a function of (point set, k, query point): the parameter `knn`.
+
+`planeEstimation_` hands `neighborIndexes_` to the query, which overwrites the first `count` entries (`count` = number
+of neighbours found, nanoflann `KNNResultSet::addPoint`) and leaves the others as they were; the loops (:89, :96) then
+read entries `0 .. k-1`.  `overwrite` / `planeEstimation` keep exactly that, so that "the result does not depend on
+what earlier calls left behind" is a theorem (`RomeaProofs/Properties/C09.lean`, `planeEstimation_eig`,
+`computeS_eq_computeAll`, `history`) with the hypothesis it really needs: the query returns `k` indices. -/
+
+/-- the per-point report of the `compute` overloads from the decomposition held in `eigenValues_`/`eigenVectors_` -/
+def report (hom : Bool) (e : EigSym (m + 2) α) (p : Vec (m + 2) α) : Out (m + 2) α :=
+  let n0 : Vec (m + 2) α := fun i => e.vecs i 0                      -- :131 first column
+  let flip := flipTest hom p n0                                      -- :34
+  { normal := if flip then (fun i => -(n0 i)) else n0,               -- :35
+    w := if flip then -zero else zero,                               -- :33, :35
+    curvature := e.vals 0 / sumFin e.vals,                           -- :163 / :257
+    reliability := reliabilityOf e.vals,                             -- :260
+    flipped := flip }
+
+/-- the members of a `NormalAndCurvatureEstimation` object that survive a call -/
+structure Estimator (d : Nat) (α : Type) where
+  k : Nat                  -- numberOfNeighborPoints_
+  idx : List Nat           -- neighborIndexes_
+  eig : EigSym d α         -- eigenValues_, eigenVectors_
+
+/-- the constructor (:47-58) -/
+def Estimator.new {d : Nat} (k : Nat) : Estimator d α :=
+  { k := k, idx := List.replicate k 0, eig := { vals := fun _ => zero, vecs := fun _ _ => zero } }
+
+/-- the k-NN result set writes the `res.length` neighbours it found over the front of the caller's buffer -/
+def overwrite (res buf : List Nat) : List Nat := res ++ buf.drop res.length
+
+/-- `planeEstimation_` (:60-105) as a transition of the estimator object; `knn i` = what the tree's query finds -/
+def planeEstimation (eig : Mat (m + 2) α → EigSym (m + 2) α) (knn : Nat → List Nat)
+    (pts : Array (Vec (m + 2) α)) (e : Estimator (m + 2) α) (i : Nat) : Estimator (m + 2) α :=
+  let idx := overwrite (knn i) e.idx                                                   -- :68-72
+  let nb := (idx.take e.k).map fun j => pts.getD j (fun _ => zero)                      -- :89, :96 read entries 0..k-1
+  { e with idx := idx, eig := eig (covTab nb) }                                        -- :102-104
+
+/-- one `compute(points, tree, ...)` call (:120-133 and the two other tree overloads) on an estimator object:
+    the object after the call and the per-point reports -/
+def computeS (hom : Bool) (eig : Mat (m + 2) α → EigSym (m + 2) α) (knn : Nat → List Nat)
+    (pts : Array (Vec (m + 2) α)) (e : Estimator (m + 2) α) : Estimator (m + 2) α × Array (Out (m + 2) α) :=
+  (List.range pts.size).foldl (fun acc i =>
+    let e' := planeEstimation eig knn pts acc.1 i
+    (e', acc.2.push (report hom e'.eig (pts.getD i (fun _ => zero))))) (e, #[])
+
+/-- the objects a caller keeps between calls: a point set with the kd-tree built on it (the tree is a function of the
+    point set: it is represented by the point set, and queried through `knn pts k`), and an estimator -/
+structure Session (d : Nat) (α : Type) where
+  cloud : Option (Array (Vec d α)) := none
+  est : Option (Estimator d α) := none
+
+/-- what a caller can do: build a tree on a new point set, construct an estimator with `k` neighbours, run the estimator
+    through the tree (the overloads without a tree argument build their own tree on the same points: the same `knn pts`) -/
+inductive Op (d : Nat) (α : Type)
+  | setCloud (pts : Array (Vec d α))
+  | setEst (k : Nat)
+  | use
+
+/-- one operation; `use` answers only inside the asserted precondition `0 < k < points.size()` (:127) -/
+def Session.step (hom : Bool) (eig : Mat (m + 2) α → EigSym (m + 2) α)
+    (knn : Array (Vec (m + 2) α) → Nat → Nat → List Nat) (s : Session (m + 2) α) :
+    Op (m + 2) α → Session (m + 2) α × Option (Array (Out (m + 2) α))
+  | .setCloud pts => ({ s with cloud := some pts }, none)
+  | .setEst k => ({ s with est := some (Estimator.new k) }, none)
+  | .use =>
+    match s.cloud, s.est with
+    | some pts, some e =>
+      if 0 < e.k ∧ e.k < pts.size then
+        let r := computeS hom eig (knn pts e.k) pts e
+        ({ s with est := some r.1 }, some r.2)
+      else (s, none)
+    | _, _ => (s, none)
+
 /-- the six overloads differ in what they report (and in whether the kd-tree is built by the call) -/
 inductive Overload | normals | normalsTree | curv | curvTree | rel | relTree
   deriving DecidableEq, Repr
